@@ -263,25 +263,64 @@ def complement(ctx):
                 kind = "not g"
             elif gd.get("k") == "mcall" and gd["name"] == "get_true":
                 kind = "true"
-            base = ("const", True)
             try:
-                for c_, pol in norm_.path_conditions(gx, n):
+                # the case may have been classified first (`let constant = if is_true(g) { Some(true) } else { is_false(g).then_some(false) }`,
+                # `match constant { Some(t) => .., None => .. }`): every way of reaching this entry, with the payload literal it binds
+                ways = [([], {})]
+                for c_, pol in norm_.path_conditions(gx, n, arms=True):
                     if c_.get("k") == "letexpr":
                         continue
-                    try:
-                        x = bp.extract(c_, {}, gdefs, None, 0, None, atom_fn)
-                    except bp.Opaque:
-                        # a condition that does not involve the guard (e.g. `others.is_empty()`) does not select between the cases
-                        if any(y.get("k") == "local" and vg is not None and canon(y["id"]) == canon(vg) for y in walk(c_)):
-                            raise
-                        continue
-                    base = ("and", base, x if pol else ("not", x))
-                for conds, v in norm_.value_alternatives(fs["value"]):
-                    fm = base
-                    for c_, pol in conds:
-                        x = bp.extract(c_, {}, gdefs, None, 0, None, atom_fn)
-                        fm = ("and", fm, x if pol else ("not", x))
-                    rows.append((kind, value_kind(v), fm))
+                    nxt = []
+                    if c_.get("k") == "armpat":
+                        pp = c_["pat"]
+                        while pp.get("k") in ("pref", "pderef"):
+                            pp = pp["pat"]
+                        table = norm_.result_table(gx, strip_try(c_["scrut"]), unwrap=()) if peel(c_["scrut"]).get("k") in ("local", "match", "if", "blockexpr") else []
+                        hits = []
+                        for cs_, lf in table:
+                            lf = peel(lf)
+                            lp = lf.get("path") if lf.get("k") == "def" else (callee(lf) if lf.get("k") == "ctor" else None)
+                            if lp is None:
+                                hits = None
+                                break
+                            matches_ = pp.get("k") in ("pwild", "pbind") or lp == pp.get("path")
+                            if matches_ == pol:
+                                env_ = {}
+                                if pol and pp.get("k") == "pvariant" and len(pp.get("subs", [])) == 1 and lf.get("k") == "ctor" and len(lf.get("args", [])) == 1:
+                                    a0 = peel(lf["args"][0])
+                                    for _, bi in pat_bindings(pp["subs"][0]):
+                                        if a0.get("k") == "lit" and isinstance(a0.get("v"), bool):
+                                            env_[canon(bi)] = a0["v"]
+                                hits.append((cs_, env_))
+                        if hits is None or not table:
+                            raise bp.Opaque(c_.get("scrut", {}), "match on a value that is not built from constructors")
+                        for cl_, en_ in ways:
+                            for cs_, env_ in hits:
+                                nxt.append((cl_ + list(cs_), dict(en_, **env_)))
+                    else:
+                        nxt = [(cl_ + [(c_, pol)], en_) for cl_, en_ in ways]
+                    ways = nxt
+                for cl_, en_ in ways:
+                    base = ("const", True)
+                    for c_, pol in cl_:
+                        try:
+                            x = bp.extract(c_, {}, gdefs, None, 0, None, atom_fn)
+                        except bp.Opaque:
+                            # a condition that does not involve the guard (e.g. `others.is_empty()`) does not select between the cases
+                            if any(y.get("k") == "local" and vg is not None and canon(y["id"]) == canon(vg) for y in walk(c_)):
+                                raise
+                            continue
+                        base = ("and", base, x if pol else ("not", x))
+                    for conds, v in norm_.value_alternatives(fs["value"]):
+                        fm = base
+                        for c_, pol in conds:
+                            c0 = resolve(peel(c_))
+                            if c0.get("k") == "local" and canon(c0["id"]) in en_:
+                                x = ("const", en_[canon(c0["id"])])      # the payload bound by the selected variant
+                            else:
+                                x = bp.extract(c_, {}, gdefs, None, 0, None, atom_fn)
+                            fm = ("and", fm, x if pol else ("not", x))
+                        rows.append((kind, value_kind(v), fm))
             except bp.Opaque:
                 unknown = True
     pairs = sorted({(k_, v_) for k_, v_, _ in rows})
